@@ -2002,7 +2002,9 @@ impl Sessions {
                 .flat_map(|sess| sess.exchanges.iter())
                 .filter_map(|exch| exch.as_ref())
                 .all(|exch| {
-                    !matches!(exch.role, Role::Responder(_)) || exch.exch_id != next_exch_id
+                    // The new ID is for an exchange we initiate: it may only clash with
+                    // other exchanges we initiated (those of the peers live in their own ID space)
+                    !matches!(exch.role, Role::Initiator(_)) || exch.exch_id != next_exch_id
                 })
             {
                 break;
